@@ -14,7 +14,7 @@ PROP = "C14"
 LEVEL = "model_checking"
 RULE = (
     "X-SEQ on the real daemon code (mod_daemon.main / process_input) with an instrumented stdin and captured reply stream: every "
-    "sequence of input lines of length <= 3 (quick) / <= 4 (thorough) over an alphabet of 17 line classes (valid request; valid with "
+    "sequence of input lines of length <= 3 (quick) / <= 4 (thorough) over an alphabet of 18 line classes (valid request; valid request of 100 kB on one line; valid with "
     "CRLF and extra keys; valid multi-module; invalid base64; base64 of non-UTF-8 bytes; base64 of non-JSON; JSON array; JSON "
     "scalar/null; unknown action; missing code; code of the wrong type; unknown option name / options null; source that drives the "
     "compiler into its internal-error path; source with a syntax error; well-formed requests whose echoed fields carry a lone surrogate; blank line; EXIT) is fed to a fresh run of main(); the "
@@ -43,6 +43,10 @@ def make_line(cls, k):
         return b64({"action": "compile", "code": {"": src}, "options": {"compact": True}, "lineno": 3, "column": 7}) + "\r"
     if cls == "valid-modules":
         return b64({"action": "compile", "code": {"": f"from library import m\nm.f({const})\nm.f(2)\n", "m": "def f(a):\n    db.Setting = a\n"}, "options": {}})
+    if cls == "valid-huge":
+        # one request line far longer than any buffer size (100 kB of source): still exactly one request
+        big = src + "".join(f"# filler line {i} {'x' * 60}\n" for i in range(1400))
+        return b64({"action": "compile", "code": {"": big}, "options": {"append_version": False}})
     if cls == "bad-base64":
         return "!!!not*base64!!!"
     if cls == "non-utf8":
@@ -81,8 +85,8 @@ def make_line(cls, k):
     raise KeyError(cls)
 
 
-ALPHABET = ["valid", "valid-crlf-extra", "valid-modules", "bad-base64", "non-utf8", "non-json", "json-array", "json-scalar", "unknown-action", "missing-code", "code-wrong-type", "bad-options", "internal-error", "syntax-error", "echo-surrogate", "blank", "EXIT"]
-VALID = {"valid", "valid-crlf-extra", "valid-modules"}
+ALPHABET = ["valid", "valid-crlf-extra", "valid-modules", "valid-huge", "bad-base64", "non-utf8", "non-json", "json-array", "json-scalar", "unknown-action", "missing-code", "code-wrong-type", "bad-options", "internal-error", "syntax-error", "echo-surrogate", "blank", "EXIT"]
+VALID = {"valid", "valid-crlf-extra", "valid-modules", "valid-huge"}
 COMPILES = VALID | {"internal-error", "syntax-error", "constexpr-prints"}
 
 _daemon = None
